@@ -620,7 +620,7 @@ func (f *Frame) appendLemmaFacts(et types.Type, a, b, c T, cc *ssa.CallCommon, c
 		if lm == nil || len(lm.Params) != 3 {
 			panic(trErr{"appendlemma " + n + ": lemma with three slice parameters expected"})
 		}
-		tr := &Translator{f: f, cur: f.st, old: f.st, allocOld: f.enc.declConst("alloc@0", SInt)}
+		tr := &Translator{f: f, cur: f.st, old: f.st, allocOld: f.enc.declConst("alloc@0", SInt), appendSite: true}
 		tr.bound = map[string]tv{lm.Params[0].Name: {a, st}, lm.Params[1].Name: {b, st}, lm.Params[2].Name: {c, st}}
 		body := tr.boolExpr(lm.Body)
 		f.enc.factAbout(c, body)
